@@ -73,3 +73,10 @@ claim("C15", "Throttle.tla models one limiter in integer ticks (window origin, a
       "unlimited runs must take zero virtual time.", "TLA+ trace validation of throttle event streams (exact virtual time) + TLC model check (MC_Throttle)",
       note="Trusted base: TLC; limits and times are dyadic (ticks of 1/64 s) so that float arithmetic is exact - arbitrary limits and "
            "float rounding are not covered; wrappers around Throttle.wait/append/limit are installed by the harness at run time.")
+claim("C20", "LoginLog.tla states what a log record may contain (tokens; never the password token; star runs of the password's length; a "
+      "twin session with another password of equal length logs identical text). All records of the root, aioftp.client and aioftp.server "
+      "loggers at DEBUG during real login sessions - 11 password classes x 4 outcomes x the real Client.login and raw-wire spellings of the "
+      "verb - are tokenised and judged by TLC.", "TLC judgement of tokenised log records (LoginLog.tla) + non-interference twin runs",
+      note="Trusted base: TLC; the tokeniser (literal search for the concrete password and its stripped form in every formatted record); "
+           "password classes are a finite family designed around the censoring code paths (verb spelling, slicing by length, format "
+           "directives), not all strings.", design="7")
